@@ -34,6 +34,15 @@ def sim_name(path):
     return p
 
 
+class NoProgress(BaseException):
+    """A handle was asked for data at end of file NO_PROGRESS_LIMIT times in a row without anything else happening to
+    it: whoever reads it is not going to stop.  Liveness in simulated time (I/O steps), not wall-clock.  Derived from
+    BaseException so that no `except Exception` between the stream and the runner swallows it."""
+
+
+NO_PROGRESS_LIMIT = 20000
+
+
 class SimFile(object):
     """Duck-typed binary file.  Deliberately not an io.IOBase subclass (IOBase.__del__ calls close())."""
 
@@ -86,6 +95,16 @@ class SimFile(object):
             self._ev('eio', self._pos, 0, 0)
             raise OSError(errno.EIO, 'injected I/O error (read event %d)' % k)
 
+    def _progress(self, made):
+        if made:
+            self._idle = 0
+            return
+        self._idle = getattr(self, '_idle', 0) + 1
+        if self._idle > NO_PROGRESS_LIMIT:
+            self.fs.faults_fired['no-progress'] = self.fs.faults_fired.get('no-progress', 0) + 1
+            raise NoProgress('%d consecutive reads of %s at end of file (position %d) returned nothing' % (
+                self._idle, self.name, self._pos))
+
     # -- file API
     def read(self, n=-1):
         self._check()
@@ -98,6 +117,7 @@ class SimFile(object):
         out = bytes(buf[self._pos:self._pos + n])
         self._ev('read', self._pos, n, len(out))
         self._pos += len(out)
+        self._progress(len(out) or n == 0)
         return out
 
     def readinto(self, b):
@@ -132,6 +152,7 @@ class SimFile(object):
             mv[:k] = buf[self._pos:self._pos + k]
         self._ev('readinto', self._pos, want, k)
         self._pos += k
+        self._progress(k)
         return k
 
     def write(self, data):
@@ -170,6 +191,7 @@ class SimFile(object):
         if new < 0:
             raise OSError(errno.EINVAL, 'Invalid argument')
         self._pos = int(new)
+        self._idle = 0
         self._ev('seek', self._pos, pos, whence)
         return self._pos
 
